@@ -10,17 +10,17 @@ structure GoStmt where
   deriving DecidableEq, Repr
 
 def goStmts : List GoStmt := [
-  ⟨"pkg/bondmachine/vm.go", "Launch_processors", "EmuDriverDispatcher", some false⟩,
+  ⟨"pkg/bondmachine/vm.go", "Launch_processors", "EmuDriverDispatcher", some true⟩,
   ⟨"pkg/bondmachine/vm.go", "Launch_processors", "Run", none⟩,
-  ⟨"pkg/bondmachine/vm.go", "Launch_processors", "Processor_execute", some false⟩,
+  ⟨"pkg/bondmachine/vm.go", "Launch_processors", "Processor_execute", some true⟩,
   ⟨"pkg/bmreqs/reqroot.go", "NewReqRoot", "run", some true⟩,
   ⟨"cmd/simfinetune/simfinetune.go", "FitnessFunction", "func", some true⟩
 ]
 
 /-- functions of the anchored files that call Launch_processors, and whether they also call Shutdown -/
 def launchers : List (String × String × Bool) := [
-  ("pkg/bondmachine/simulate.go", "SinglePipelineSimulate", false),
-  ("pkg/bondmachine/evolutionary.go", "Fitness_default", false)
+  ("pkg/bondmachine/simulate.go", "SinglePipelineSimulate", true),
+  ("pkg/bondmachine/evolutionary.go", "Fitness_default", true)
 ]
 
 end BMV.Gen.GoStmts
